@@ -2,7 +2,7 @@
 # usage: tools/seedverify.sh <ID> [2]   -- confirm a sub-agent's seeded defect in a scratch worktree
 # (suite passes with the patch, demo fails with it and passes without), then store it under /verif/seeded/.
 set -u
-id=$1; n=${2:-}; src=/tmp/seed-$id
+id=$1; n=${2:-}; src=${SEEDSRC:-/tmp/seed}-$id; tag=${SEEDTAG:-}
 patch=$src/patch$n.diff; demo=$src/demo$n; meta=$src/meta$n.json
 [ -f $patch ] || { echo "no $patch"; exit 2; }
 export GOFLAGS=-mod=mod GOPROXY=off GOSUMDB=off GOTOOLCHAIN=local
@@ -20,7 +20,7 @@ suite=$(go test -vet=off -count=1 ./... 2>&1); rc_suite=$?; rm -rf engine/data
 ( cd $wt && bash $demo/run.sh ) >/tmp/sv-$id$n.patch.log 2>&1; rc_patch=$?
 echo "RESULT $id$n: demo_without_patch_rc=$rc_clean (want 0) suite_with_patch_rc=$rc_suite (want 0) demo_with_patch_rc=$rc_patch (want !=0)"
 if [ $rc_clean -eq 0 ] && [ $rc_suite -eq 0 ] && [ $rc_patch -ne 0 ]; then
-  dst=/verif/seeded/$id$([ -n "$n" ] && echo "-$n"); rm -rf $dst; mkdir -p $dst
+  dst=/verif/seeded/$id$tag$([ -n "$n" ] && echo "-$n"); rm -rf $dst; mkdir -p $dst
   cp $patch $dst/patch.diff; cp -r $demo $dst/demo; cp $meta $dst/meta.agent.json 2>/dev/null
   echo "CONFIRMED -> $dst"
 else
